@@ -418,6 +418,10 @@ def run(ctx):
                 r.bad("walkparallel|%s" % fld, "WalkParallel.%s is never read by visit (dead option)" % fld,
                       fn=visf[0], construct=fld)
 
+    with ctx.rule("C06.SEED", "the parallel walker starts from every root the serial one does (shared with C07.SEED)", floor=1,
+                  kind="FLOW") as r:
+        from . import c07
+        c07.seed_rule(ctx, r)
     with ctx.rule("C06.PRUNE", "a skipped directory is not descended and the matcher stack stays aligned",
                   floor=3, kind="PASS") as r:
         prune_rule(ctx, r)
